@@ -17,7 +17,7 @@ Lemma restore_stable_no_route c n g : no_route_writes (tr_writes (restore_stable
 Proof. unfold restore_stable_service. destruct (negb (tc_refs c)); [reflexivity|]. destruct (negb (n_stable_exists n)); [reflexivity|].
   destruct (with_grace _ _ _ _ _) as [rt g']. cbn [tr_writes]. destruct (tc_key c && match n_stable_sel n with Some r => negb (sempty r) | None => false end); reflexivity. Qed.
 Lemma patch_stable_no_route c n g : no_route_writes (tr_writes (patch_stable_service c n g)).
-Proof. unfold patch_stable_service. destruct (negb (tc_refs c)); [reflexivity|]. destruct (negb (n_stable_exists n)); [reflexivity|].
+Proof. unfold patch_stable_service. destruct (negb (tc_refs c)); [reflexivity|]. destruct (tc_only_traffic c); [reflexivity|]. destruct (negb (n_stable_exists n)); [reflexivity|].
   destruct (with_grace _ _ _ _ _) as [rt g']. cbn [tr_writes]. destruct (negb _); reflexivity. Qed.
 Lemma restore_gateway_no_route c n g : no_route_writes (tr_writes (restore_gateway c n g)).
 Proof. unfold restore_gateway, finalise_routes. destruct (negb (tc_refs c)); [reflexivity|]. destruct (tc_gateway_fails c); [reflexivity|]. destruct (n_route n);
@@ -336,7 +336,18 @@ Qed.
 (* ---- C03, second half: a step reported as routed carries exactly its strategy ---- *)
 Lemma do_jump_state sp u u' : do_jump sp u = Some (Some u') -> su_state u' = StTraffic \/ su_state u' = StInit.
 Proof. unfold do_jump. destruct (get_step sp (su_idx u)); [|discriminate]. destruct (_ && _); [|discriminate].
-  destruct (get_step sp (su_next u)); [|discriminate]. intros H; injection H as <-. cbn. destruct (ios_eqb _ _); auto. Qed.
+  destruct (get_step sp (su_next u)); [|discriminate]. intros H; injection H as <-. cbn. destruct (_ && _); auto. Qed.
+
+(* a jump reaches the traffic-routing state only when the target step calls for the same replicas as the current one *)
+Ltac split_and := repeat match goal with |- _ /\ _ => split end.
+Lemma jump_routes_only_between_equal_replicas sp u u' cur nx : do_jump sp u = Some (Some u') ->
+  get_step sp (su_idx u) = Some cur -> get_step sp (su_next u) = Some nx ->
+  su_idx u' = su_next u /\
+  (su_state u' = StTraffic -> ios_eqb (sp_replicas nx) (sp_replicas cur) = true /\ su_state u <> StInit /\ su_state u <> StUpgrade) /\
+  (su_state u' = StTraffic \/ su_state u' = StInit).
+Proof. unfold do_jump. intros H Hc Hn. rewrite Hc in H. destruct (_ && _); [|discriminate]. rewrite Hn in H. injection H as <-. cbn.
+  destruct (ios_eqb (sp_replicas nx) (sp_replicas cur)); cbn [andb]; [|split_and; auto; discriminate].
+  destruct (su_state u); cbn; split_and; auto; intros Hx; try discriminate Hx; split_and; try reflexivity; discriminate. Qed.
 
 Lemma sync_fill_pth u0 br0 w : su_pth u0 <> ""%string -> su_pth (fill_pth (fst (sync_br u0 br0)) w) = su_pth u0.
 Proof. intros H. unfold sync_br, fill_pth. destruct br0 as [b|]; cbn; destruct (sempty (su_pth u0)) eqn:E; try reflexivity;
@@ -383,7 +394,7 @@ Proof.
   2:{ injection H as <-. exfalso. apply Hbr. reflexivity. }
   (* patch_stable_service ok: the selector is already right, or zero grace and it was just written *)
   assert (Hpin : n_stable_sel (apply_writes n (tr_writes b)) = Some (su_stable u)).
-  { subst b. revert Eok. unfold patch_stable_service. cbn [mk_ctx tc_refs tc_stable_rev tc_zero_grace]. rewrite Hr, Hex. cbn [negb].
+  { subst b. revert Eok. unfold patch_stable_service. cbn [mk_ctx tc_refs tc_stable_rev tc_zero_grace tc_only_traffic]. rewrite Hr, Hex. cbn [negb].
     set (m := negb (opt_eqb String.eqb _ _)).
     destruct (with_grace (ts_zero_grace t) GPatchService m false g) as [rt g'] eqn:Ew. cbn [tr_ok tr_writes].
     unfold with_grace in Ew. destruct m eqn:Em.
